@@ -27,6 +27,7 @@ import (
 type Server struct {
 	*protocol.Protocol
 	protocolMu             sync.RWMutex
+	onceStart              *sync.Once // replaced together with Protocol on restart
 	config                 *Config
 	callbackContext        CallbackContext
 	protoOptions           protocol.ProtocolOptions
@@ -76,6 +77,7 @@ func (s *Server) initProtocol() {
 	p := protocol.New(protoConfig)
 	s.protocolMu.Lock()
 	s.Protocol = p
+	s.onceStart = &sync.Once{}
 	s.protocolMu.Unlock()
 	s.callbackContext.DoneChan = s.DoneChan()
 }
@@ -87,24 +89,30 @@ func (s *Server) ProtocolInstance() *protocol.Protocol {
 }
 
 func (s *Server) Start() {
-	p := s.ProtocolInstance()
-	p.Logger().
-		Debug("starting server protocol",
-			"component", "network",
-			"protocol", ProtocolName,
-			"connection_id", s.callbackContext.ConnectionId.String(),
-		)
-	p.Start()
-	// Start goroutine to cleanup resources on protocol shutdown
-	doneChan := p.DoneChan()
-	go func() {
-		// We create our own vars for these channels since they get replaced on restart
-		requestTxIdsResultChan := s.requestTxIdsResultChan
-		requestTxsResultChan := s.requestTxsResultChan
-		<-doneChan
-		close(requestTxIdsResultChan)
-		close(requestTxsResultChan)
-	}()
+	s.protocolMu.RLock()
+	p := s.Protocol
+	onceStart := s.onceStart
+	s.protocolMu.RUnlock()
+	// Start each protocol instance (and its cleanup goroutine) only once
+	onceStart.Do(func() {
+		p.Logger().
+			Debug("starting server protocol",
+				"component", "network",
+				"protocol", ProtocolName,
+				"connection_id", s.callbackContext.ConnectionId.String(),
+			)
+		p.Start()
+		// Start goroutine to cleanup resources on protocol shutdown
+		doneChan := p.DoneChan()
+		go func() {
+			// We create our own vars for these channels since they get replaced on restart
+			requestTxIdsResultChan := s.requestTxIdsResultChan
+			requestTxsResultChan := s.requestTxsResultChan
+			<-doneChan
+			close(requestTxIdsResultChan)
+			close(requestTxsResultChan)
+		}()
+	})
 }
 
 // RequestTxIds requests the next set of TX identifiers from the remote node's mempool
